@@ -160,6 +160,7 @@ struct slice
 channel_read_map(struct channel* self, struct channel_reader* reader)
 {
     size_t nbytes = 0;
+    int released_space = 0;
     lock_acquire(&self->lock);
 
     reader_initialize(self, reader);
@@ -200,6 +201,7 @@ channel_read_map(struct channel* self, struct channel_reader* reader)
         out = 0;
         *pos = 0;
         *cycle = self->cycle;
+        released_space = 1;
         if (self->head > 0) {
             out = self->data;
             nbytes = self->head;
@@ -213,6 +215,10 @@ channel_read_map(struct channel* self, struct channel_reader* reader)
 
 Finalize:
     lock_release(&self->lock);
+    // Moving this reader's bookmarks without a mapping releases space just
+    // like a consuming unmap does: wake a writer waiting for it.
+    if (released_space)
+        condition_variable_notify_all(&self->notify_space_available);
     return (struct slice){ .beg = out, .end = out + nbytes };
 Overflow:
     reader->status = Channel_Error;
@@ -221,6 +227,7 @@ AdvanceToWriterHead:
     nbytes = 0;
     *pos = self->head;
     *cycle = self->cycle;
+    released_space = 1;
     goto Finalize;
 }
 
